@@ -5,7 +5,7 @@
    the pawn / king / castling blocks, is_capture = the rules' capture relation and the attack queries = the rules'
    attack relation are decided by the correspondence run against spec/Rules.v. *)
 From Coq Require Import NArith ZArith List Bool.
-From Rawr Require Import Consts Bits Magic Position MoveGen MakeMove MakeStages Rules Abs NotationFacts KeyAbs AttackFacts AttackAbs CountFacts AttackSets CaptureFacts.
+From Rawr Require Import Consts Bits Magic Position MoveGen MakeMove MakeStages Rules Abs NotationFacts KeyAbs AttackFacts AttackAbs CountFacts AttackSets CaptureFacts RaySym.
 Import ListNotations.
 Local Open Scope N_scope.
 
@@ -60,6 +60,12 @@ Theorem C08_captures_are_the_capturing_moves : forall p, good_pos_b p = true ->
   /\ forall m, In m (legal_moves p) -> is_capture p (m_from m) (m_to m) = captures (abs_state p) (dec p m).
 Proof. exact good_pos_captures. Qed.
 
+(* slider attacks are symmetric for every occupancy: b is hit from a iff a is hit from b *)
+Theorem C08_slider_attacks_symmetric : forall a b occ, a < 64 -> b < 64 ->
+  (N.testbit (batt a occ) b = true -> N.testbit (batt b occ) a = true)
+  /\ (N.testbit (ratt a occ) b = true -> N.testbit (ratt b occ) a = true).
+Proof. intros a b occ Ha Hb. split; [exact (batt_sym a b occ Ha Hb)|exact (ratt_sym a b occ Ha Hb)]. Qed.
+
 Example C08_attack_example : attack_pre_b startpos = true /\ attack_pre_b (makenull startpos) = true.
 Proof. split; vm_compute; reflexivity. Qed.
 
@@ -76,3 +82,4 @@ Print Assumptions C08_set_query_is_the_rules.
 Print Assumptions C08_attacked_subset_is_the_rules.
 Print Assumptions C08_in_check_is_the_rules.
 Print Assumptions C08_captures_are_the_capturing_moves.
+Print Assumptions C08_slider_attacks_symmetric.
